@@ -148,28 +148,33 @@ func fullCheck(res *Result, r *fullRec) {
 		res.addCandidate(Candidate{Sig: map[string]any{"input": ints(src), "class": "panic"}, Record: rec, What: fmt.Sprintf("%q: panic %s", src, pm)})
 		return
 	}
-	if w := wantSkel.String(); w != gotSkel.String() {
-		res.addCandidate(Candidate{Sig: map[string]any{"input": ints(src), "class": "full:blocks"}, Record: rec,
-			What: fmt.Sprintf("%q:\n      spec  %s\n      code  %s", src, w, gotSkel.String())})
-		return
-	}
-	if fmt.Sprintf("%q", wantInl) != fmt.Sprintf("%q", gotInl) {
-		res.addCandidate(Candidate{Sig: map[string]any{"input": ints(src), "class": "full:" + inlineClass(strings.Join(wantInl, ""), strings.Join(gotInl, ""))[7:]}, Record: rec,
-			What: fmt.Sprintf("%q: inline structure per paragraph / heading:\n      spec  %q\n      code  %q", src, wantInl, gotInl)})
-		return
-	}
-	if len(wantHTML) != len(gotHTML) {
-		res.addCandidate(Candidate{Sig: map[string]any{"input": ints(src), "class": "full:html"}, Record: rec, What: fmt.Sprintf("%q: %d root blocks, spec %d", src, len(gotHTML), len(wantHTML))})
-		return
-	}
-	for i := range wantHTML {
-		if normEdge(wantHTML[i]) != normEdge(gotHTML[i]) {
-			res.addCandidate(Candidate{Sig: map[string]any{"input": ints(src), "class": "full:html"}, Record: rec,
-				What: fmt.Sprintf("%q: HTML of root block %d:\n      spec  %q\n      code  %q", src, i, wantHTML[i], gotHTML[i])})
+	if os.Getenv("VERIF_FULL_PART") != "cfg" {
+		if w := wantSkel.String(); w != gotSkel.String() {
+			res.addCandidate(Candidate{Sig: map[string]any{"input": ints(src), "class": "full:blocks"}, Record: rec,
+				What: fmt.Sprintf("%q:\n      spec  %s\n      code  %s", src, w, gotSkel.String())})
 			return
 		}
+		if fmt.Sprintf("%q", wantInl) != fmt.Sprintf("%q", gotInl) {
+			res.addCandidate(Candidate{Sig: map[string]any{"input": ints(src), "class": "full:" + inlineClass(strings.Join(wantInl, ""), strings.Join(gotInl, ""))[7:]}, Record: rec,
+				What: fmt.Sprintf("%q: inline structure per paragraph / heading:\n      spec  %q\n      code  %q", src, wantInl, gotInl)})
+			return
+		}
+		if len(wantHTML) != len(gotHTML) {
+			res.addCandidate(Candidate{Sig: map[string]any{"input": ints(src), "class": "full:html"}, Record: rec, What: fmt.Sprintf("%q: %d root blocks, spec %d", src, len(gotHTML), len(wantHTML))})
+			return
+		}
+		for i := range wantHTML {
+			if normEdge(wantHTML[i]) != normEdge(gotHTML[i]) {
+				res.addCandidate(Candidate{Sig: map[string]any{"input": ints(src), "class": "full:html"}, Record: rec,
+					What: fmt.Sprintf("%q: HTML of root block %d:\n      spec  %q\n      code  %q", src, i, wantHTML[i], gotHTML[i])})
+				return
+			}
+		}
 	}
-	// the other renderer configurations
+	// the other renderer configurations (C10's business: VERIF_FULL_PART=cfg; C06 compares the default configuration only)
+	if os.Getenv("VERIF_FULL_PART") != "cfg" {
+		return
+	}
 	cfgs := []commonmark.HTMLRenderer{
 		{SoftBreakBehavior: commonmark.SoftBreakBehavior(1)},
 		{SoftBreakBehavior: commonmark.SoftBreakBehavior(2)},
